@@ -289,7 +289,14 @@ func (g gInfo) xml() string {
 			continue
 		}
 		b.WriteString(`<x xmlns='jabber:x:data' type='result'>`)
-		for _, fd := range f.fields {
+		if len(f.fields)%2 == 0 {
+			// parts of a form that do not take part in the hash
+			b.WriteString("<title>t&lt;</title>\n  <instructions>one</instructions><instructions>two</instructions>")
+		}
+		for k, fd := range f.fields {
+			if k%3 == 2 {
+				b.WriteString("\n\t")
+			}
 			b.WriteString(`<field`)
 			if fd.vr != "" {
 				fmt.Fprintf(&b, ` var="%s"`, esc(fd.vr))
@@ -298,8 +305,14 @@ func (g gInfo) xml() string {
 				fmt.Fprintf(&b, ` type="%s"`, esc(fd.typ))
 			}
 			b.WriteString(`>`)
+			if len(fd.vals) > 1 {
+				b.WriteString(`<desc>d</desc><required/>`)
+			}
 			for _, v := range fd.vals {
 				fmt.Fprintf(&b, `<value>%s</value>`, esc(v))
+			}
+			if fd.typ == "list-multi" || fd.typ == "list-single" {
+				b.WriteString(`<option label="o"><value>not-a-value-of-the-field</value></option>`)
 			}
 			b.WriteString(`</field>`)
 		}
